@@ -29,6 +29,9 @@ var active atomic.Pointer[Sim]
 // is preempted (so that simulated time, sleepers and deadlines make progress).
 const maxSlice = 20000
 
+// fairK: see the ordering of ready tasks in schedule().
+const fairK = 64
+
 // Progress is bumped on every scheduler iteration; a watchdog outside the
 // bubble reads it with the real clock.
 var Progress atomic.Int64
@@ -63,6 +66,7 @@ type Task struct {
 	state     State
 	site      string
 	blockSite string
+	lastRun   int // decision number at which the task was last resumed
 	resume    chan struct{}
 	wakeAt    time.Time
 	steps     int64
@@ -127,6 +131,7 @@ type Sim struct {
 	fastDecisions int64
 	jumped        time.Duration // simulated time skipped by explicit clock jumps while tasks were ready
 	sliceSteps    int64
+	streak        int // consecutive decisions that continued the same task while others were ready
 
 	aborting    atomic.Bool
 	free        bool
@@ -920,13 +925,26 @@ loop:
 		}
 		idle = 0
 
-		// order: the task that ran last first, then by id
-		sort.SliceStable(ready, func(i, j int) bool {
-			if (ready[i] == s.last) != (ready[j] == s.last) {
-				return ready[i] == s.last
-			}
-			return ready[i].ID < ready[j].ID
-		})
+		// order: the task that ran last first, then by id. Bounded fairness: once the same
+		// task has been continued fairK times in a row while others were ready, it goes
+		// last, so that the default decision (0) lets somebody else run (a spin-wait on
+		// another core's progress must terminate under the default schedule).
+		if s.streak < fairK {
+			sort.SliceStable(ready, func(i, j int) bool {
+				if (ready[i] == s.last) != (ready[j] == s.last) {
+					return ready[i] == s.last
+				}
+				return ready[i].ID < ready[j].ID
+			})
+		} else {
+			// least recently run first (round robin)
+			sort.SliceStable(ready, func(i, j int) bool {
+				if ready[i].lastRun != ready[j].lastRun {
+					return ready[i].lastRun < ready[j].lastRun
+				}
+				return ready[i].ID < ready[j].ID
+			})
+		}
 		n := len(ready)
 		clockOpt := s.cfg.ClockJumps && sleepers > 0 && earliest.After(now)
 		if clockOpt {
@@ -956,6 +974,11 @@ loop:
 		if t.state == StWaitLock {
 			t.waitLock.grant(t)
 		}
+		if t == s.last && len(ready) > 1 {
+			s.streak++
+		} else {
+			s.streak = 0
+		}
 		if t != s.last {
 			s.switches++
 			fmt.Fprintf(s.sw, "%d@%s;", t.ID, t.site)
@@ -965,6 +988,7 @@ loop:
 		}
 		s.last = t
 		s.cur = t
+		t.lastRun = s.decisions
 		t.state = StRunning
 		s.mu.Unlock()
 		t.resume <- struct{}{}
